@@ -6,26 +6,36 @@ limits; returned records cross-checked against what the stubs saw.
 """
 import json
 import sys
+import types
 
 from pydantic import BaseModel
 
 from rv import core, sched
 from rv import c18_sessions as S
+from rv import c18_r4 as R4
 from rv.faults import EXC_CLASSES
 
 PID = "C18"
 LEVEL = "exploration"
 TECHNIQUE = "runtime monitoring: call counters and argument logs inside adversarial generator/worker/provider stubs, checked against the configured budgets"
-RULE = ("cases = full sweep of limits 0..4 x adversarial behaviour programs for the three loops (silent and verbose), three long-history "
-        "sessions on one instance each, then seeded random behaviour programs and seeded random SESSIONS (1-3 differently configured "
-        "instances used alternately and re-entrantly, limits reconfigured between calls, raising hooks, read-only and maintenance APIs "
-        "interleaved, each call judged against the limits in force when it started); non-trivial = the loop was driven past its first "
-        "call (>=1 retry / regeneration / tool round); distinct = (loop, configuration, behaviour program, outcome)")
+RULE = ("cases = full sweep of limits 0..4 x adversarial behaviour programs for the three loops (silent and verbose, text and non-text "
+        "outputs), three long-history sessions on one instance each, one slice of the sweep re-run under python -O, then seeded random "
+        "behaviour programs and seeded random SESSIONS (1-3 differently configured instances used alternately and re-entrantly, every "
+        "public setting reassigned between calls and limits also during a call, instances replaced by their copies, raising hooks, "
+        "read-only and maintenance APIs interleaved, foreign time zones and clocks set back, strict output streams, each call judged "
+        "against the limits in force during it), copy/deepcopy/pickle duplicates used alternately with their originals, short-lived "
+        "schemas at reused addresses; non-trivial = the loop was driven past its first call (>=1 retry / regeneration / tool round); "
+        "distinct = (loop, configuration, behaviour program, outcome)")
 ASSUMPTIONS = ["generators/workers/providers/hooks raise only Exception subclasses",
                "completion markers are the five documented words, matched case-insensitively as substrings",
                "limits are non-negative ints (bools included); a budget >= 17 is only run against an adversary that stops by itself",
                "a constructor may reject an out-of-domain option value (nan / negative thresholds ...): such a session is skipped, not judged",
-               "a final completion that raises and is asked again counts as a second final completion (own mechanism key)"]
+               "a final completion that raises and is asked again counts as a second final completion (own mechanism key)",
+               "generator / worker outputs are text by protocol; outputs of other types (objects, None, bytes, dicts) are driven too, but a "
+               "loop that RAISES on them by itself is not judged: only a returned result is (VALID/HEALED needs a schema-valid structure, "
+               "success needs a marker-carrying text)",
+               "a limit reassigned while a call is in progress: that call is judged against the largest value in force at any moment of it",
+               "fractional settings may be float, Fraction or (entropy threshold) Decimal; flags are judged by truthiness"]
 
 MARKERS = ["SUCCESS", "SOLVED", "COMPLETE", "DONE", "FINISHED"]
 
@@ -93,6 +103,11 @@ def heal_programs():
     progs.append(["same"])                        # the very same string object on every attempt
     progs.append(["fresh", "same"])               # equal but distinct objects
     progs.append(["blank", "braces", "empty_obj", "nan_price"])
+    # outputs that are not text, text with result-like attributes, str subclasses: at the first attempt and after failures
+    for tok in S.OBJ_TOKENS:
+        progs.append([tok])
+        progs.append(["invalid_type", "garbage", tok])
+    progs.append(["surrogate"])
     return progs
 
 
@@ -128,6 +143,14 @@ def swarm_programs():
     progs.append({"worker": "constant-object", "marker_at": None})
     progs.append({"worker": "unique", "marker_at": None, "shared_worker": True})
     progs.append({"worker": "seam", "marker_at": (1, 1), "marker": "Solved", "shared_worker": True})
+    for w in S.OBJ_WORKERS:
+        progs.append({"worker": w, "marker_at": None})
+        progs.append({"worker": w, "marker_at": None, "obj_from": 2})
+    # every collaborator fails (whichever is reached first), and a failure exactly at the last step / spawn the budget allows
+    progs.append({"worker": "unique", "marker_at": None, "raise_step": (1, 1), "raise_factory": 2, "raise_summarizer": 0})
+    progs.append({"worker": "repeat", "marker_at": None, "raise_step": "last"})
+    progs.append({"worker": "unique", "marker_at": None, "raise_factory": "last"})
+    progs.append({"worker": "unique", "marker_at": None, "raise_summarizer": "last"})
     return progs
 
 
@@ -160,6 +183,15 @@ def tool_programs():
     # the final completion fails
     progs.append({"calls_per_round": [1], "forever": True, "final_raises": True})
     progs.append({"calls_per_round": [0], "forever": True, "final_raises": True, "no_tools": True})
+    # what the provider hands back is only shaped like the documented types
+    for box in ("tuple", "iter", "none-when-empty"):
+        progs.append({"calls_per_round": [1, 0, 2], "forever": True, "container": box})
+    progs.append({"calls_per_round": [2], "forever": True, "duck_calls": True})
+    progs.append({"calls_per_round": [1], "forever": True, "duck_calls": True, "container": "iter", "raising_tool": True})
+    # everything fails at once; the provider fails exactly in the last round the budget allows
+    progs.append({"calls_per_round": [1], "forever": True, "raising_tool": True, "provider_raises_round": "last", "final_raises": True})
+    progs.append({"calls_per_round": [2], "forever": True, "raising_tool": True, "unknown_tool": True, "final_raises": True})
+    progs.append({"calls_per_round": [1], "forever": True, "hostile_names": True})
     return progs
 
 
@@ -171,6 +203,26 @@ SWEEP = ([("heal", m, i) for m in LIMITS for i in range(len(HEAL_PROGS))]
 
 
 LONG = ["tool", "heal", "swarm"]          # cases len(SWEEP)+0..2: one long-history session each
+
+
+def special(n, tier):
+    """the cases that are not plain seeded programs / sessions"""
+    k = n - len(SWEEP)
+    if k < 0:
+        return None
+    if k < len(LONG):
+        return "long"
+    if k == len(LONG):
+        return "python-O"
+    if k == len(LONG) + 1:
+        return "api-coverage"
+    if n % (1500 if tier == "quick" else 20000) == 7:
+        return "threads"
+    if n % 89 == 3:
+        return "protocols"
+    if n % 211 == 5:
+        return "address-reuse"
+    return None
 
 
 def plan(tier):
@@ -187,10 +239,21 @@ def plan(tier):
                         "differential_runs": 200, "calls_after_a_raise": 50, "hook_raises": 20, "maintenance_calls": 100,
                         "reconfigured_between_calls": 100, "seam_outputs": 500, "blank_final_completions": 100,
                         "long_history_sessions": 1, "long_history_operations": 10000,
-                        "sessions_under_virtual_clock": 300, "nuclei_sharing_objects": 50}}
+                        "sessions_under_virtual_clock": 300, "nuclei_sharing_objects": 50,
+                        # round-4 monitors
+                        "nonstr_generator_outputs": 300, "nonstr_worker_outputs": 300, "results_judged_after_nonstr_output": 50,
+                        "settings_changed_mid_call": 50, "duplicates_made": 100, "protocol_sessions": 30, "protocol_calls_judged": 100,
+                        "protocol_duplicates:pickle": 10, "protocol_duplicates:deepcopy": 5, "protocol_duplicates:copy": 5,
+                        "address_reuse_sessions": 10, "short_lived_requests": 50, "optimized_interpreter_cases": 100,
+                        "sessions_in_foreign_time_zone": 50, "sessions_with_clock_set_back": 50, "strict_stream_cases": 1000,
+                        "library_mock_provider_rounds": 20, "public_names_driven": 10}}
 
 
 def run_case(ctx, n):
+    strict = n % 3 == 1            # a third of the cases print (when verbose) to a strict UTF-8 stream
+    S.use_strict_sink(strict)
+    if strict:
+        ctx.count("strict_stream_cases")
     if n < len(SWEEP):
         kind, lim, i = SWEEP[n]
         if kind == "heal":
@@ -204,16 +267,27 @@ def run_case(ctx, n):
         case_tool(ctx, lim, TOOL_PROGS[i])
         return case_tool(ctx, lim, TOOL_PROGS[i], silent=False)
     rng = ctx.rng(n)
-    if n - len(SWEEP) < len(LONG):
+    sp = special(n, ctx.tier)
+    if sp == "long":
         return S.case_long(ctx, rng, LONG[n - len(SWEEP)], 20000 if ctx.tier == "quick" else 60000)
-    if n % (1500 if ctx.tier == "quick" else 20000) == 7:
+    if sp == "python-O":
+        return R4.case_optimized(ctx)
+    if sp == "api-coverage":
+        return R4.case_api_coverage(ctx)
+    if sp == "threads":
         return case_tool_threads(ctx, n, rng)
+    if sp == "protocols":
+        return R4.case_protocols(ctx, rng)
+    if sp == "address-reuse":
+        return R4.case_address_reuse(ctx, rng)
     kind = rng.choice(["heal", "swarm", "tool", "heal", "swarm", "tool", "heal-session", "swarm-session", "tool-session"])
     if kind.endswith("-session"):
         return S.case_session(ctx, rng, kind)
     if kind == "heal":
         toks = list(OUTPUTS) + ["echo", "grow", "raise", "verbose", "verbose_json", "same", "fresh", "blank", "braces"]
         prog = [rng.choice(toks) for _ in range(rng.randint(1, 7))]
+        if rng.random() < 0.25:
+            prog[rng.randrange(len(prog))] = rng.choice(S.OBJ_TOKENS + ["surrogate"])
         if rng.random() < 0.5:
             prog = [t if t not in ("valid", "fenced") else "missing" for t in prog[:-1]] + [prog[-1]]
         if rng.random() < 0.25:
@@ -221,8 +295,8 @@ def run_case(ctx, n):
         return case_heal(ctx, rng.randint(0, 6), prog, rng.choice([0.0, 0.1, 0.5, 1.0]), plain=rng.random() < 0.5, prior_twin=rng.random() < 0.4,
                          silent=rng.random() < 0.6)
     if kind == "swarm":
-        prog = {"worker": rng.choice(["unique", "repeat", "empty", "two_cycle", "near"] + S.WORKER_KINDS), "marker_at": None,
-                "memory": rng.choice(["full", "full", "none", "window2", "prefilled"])}
+        prog = {"worker": rng.choice(["unique", "repeat", "empty", "two_cycle", "near"] + S.WORKER_KINDS + S.OBJ_WORKERS), "marker_at": None,
+                "memory": rng.choice(["full", "full", "none", "window2", "prefilled"]), "obj_from": rng.randint(0, 3)}
         if rng.random() < 0.3:
             prog["task"] = rng.choice(S.TASKS)
         if rng.random() < 0.15:
@@ -232,13 +306,12 @@ def run_case(ctx, n):
         if rng.random() < 0.6:
             prog["marker_at"] = (rng.randint(0, 5), rng.randint(0, 6))
             prog["marker"] = rng.choice(["SUCCESS", "done", "abcCOMPLETEd", "solved", "Finished."])
-        r = rng.random()
-        if r < 0.1:
-            prog["raise_step"] = (rng.randint(0, 3), rng.randint(0, 4))
-        elif r < 0.15:
-            prog["raise_factory"] = rng.randint(0, 3)
-        elif r < 0.2:
-            prog["raise_summarizer"] = rng.randint(0, 2)
+        if rng.random() < 0.1:
+            prog["raise_step"] = rng.choice([(rng.randint(0, 3), rng.randint(0, 4)), "last"])
+        if rng.random() < 0.06:
+            prog["raise_factory"] = rng.choice([rng.randint(0, 3), "last"])
+        if rng.random() < 0.06:
+            prog["raise_summarizer"] = rng.choice([rng.randint(0, 2), "last"])
         return case_swarm(ctx, rng.randint(0, 5), rng.randint(0, 6), prog, rng.choice([0.0, 0.5, 0.9, 1.0, 2 / 3, 1 / 3, 0.67]),
                           silent=rng.random() < 0.6, step_timeout=rng.choice(S.STEP_TIMEOUTS))
     prog = {"calls_per_round": [rng.randint(0, 4) for _ in range(rng.randint(1, 5))], "forever": rng.random() < 0.6}
@@ -248,7 +321,13 @@ def run_case(ctx, n):
     if rng.random() < 0.15:
         prog["auto_execute"] = False
     if rng.random() < 0.1:
-        prog["provider_raises_round"] = rng.randint(1, 4)
+        prog["provider_raises_round"] = rng.choice([rng.randint(1, 4), "last"])
+    if rng.random() < 0.12:
+        prog["container"] = rng.choice(["tuple", "iter", "none-when-empty"])
+    if rng.random() < 0.08:
+        prog["duck_calls"] = True
+    if rng.random() < 0.08:
+        prog["hostile_names"] = True
     if rng.random() < 0.4:
         prog["final"] = rng.choice(list(S.TEXTS))
     if rng.random() < 0.3:
@@ -256,7 +335,7 @@ def run_case(ctx, n):
     r = rng.random()
     if r < 0.1 and not (prog.get("unknown_tool") or prog.get("same_ids")):
         prog["const"] = True
-    elif r < 0.18:
+    if rng.random() < 0.08:
         prog["final_raises"] = True
     return case_tool(ctx, rng.randint(0, 6), prog, silent=rng.random() < 0.6)
 
@@ -273,6 +352,7 @@ def _case_heal(ctx, max_retries, prog, decay, plain, prior_twin, silent):
 
     calls = []        # (prompt, error_context)
     outs = []
+    flags = {"nonstr": False}
 
     def generator(prompt, error_context=None):
         k = len(calls)
@@ -284,7 +364,10 @@ def _case_heal(ctx, max_retries, prog, decay, plain, prior_twin, silent):
         if tok == "raise":
             outs.append(None)
             raise inject(ctx, 0, "generator failed at attempt %d" % k)
-        o = OUTPUTS[tok] if tok in OUTPUTS else S.heal_output(None, k, tok, error_context)
+        o = OUTPUTS[tok] if tok in OUTPUTS else S.heal_output(None, k, tok, error_context, Item)
+        if not isinstance(o, str):
+            ctx.count("nonstr_generator_outputs")
+            flags["nonstr"] = True
         outs.append(o)
         return o
 
@@ -325,18 +408,19 @@ def _case_heal(ctx, max_retries, prog, decay, plain, prior_twin, silent):
     result = None
     try:
         result = loop.heal("make an item")
-    except tuple(EXC_CLASSES) as e:
-        if not any(e is x for x in _INJECTED[-50:]):
-            S.viol(ctx, "heal-raises", "heal() raised %s on its own" % type(e).__name__, dict(desc, error=repr(e)))
-            return
-        raised = e
     except Runaway as e:
         S.viol(ctx, "heal-call-budget", "healing loop ran away: %s with max_retries=%d" % (e, max_retries), desc)
         return
     except Exception as e:
-        S.viol(ctx, "heal-raises", "heal() raised %s although the generator did not" % type(e).__name__,
-                      dict(desc, error=repr(e)))
-        return
+        if any(e is x for x in _INJECTED[-50:]):
+            raised = e
+        elif flags["nonstr"]:
+            # the Generator protocol promises text: a loop that raises by itself on another type is not judged beyond its call budget
+            ctx.count("own_raise_on_nonstr_output")
+            raised = e
+        else:
+            S.viol(ctx, "heal-raises", "heal() raised %s on its own" % type(e).__name__, dict(desc, error=repr(e)))
+            return
     ncalls = len(calls)
     desc["generator_calls"] = ncalls
     if ncalls > max_retries + 1:
@@ -383,15 +467,13 @@ def _case_heal(ctx, max_retries, prog, decay, plain, prior_twin, silent):
     if valid:
         ctx.count("healed_results")
         s = result.structure
-        ok = isinstance(s, Item)
-        if ok:
-            try:
-                Item.model_validate(s.model_dump())
-            except Exception:
-                ok = False
-        if not ok or result.folded is None or not result.folded.valid:
+        if flags["nonstr"]:
+            ctx.count("results_judged_after_nonstr_output")
+        if not S.schema_valid(s, Item) or result.folded is None or not result.folded.valid:
             S.viol(ctx, "heal-valid-without-structure", "outcome %s with a structure that is not a valid Item: %r" % (
                 result.outcome.value, s), desc)
+        if not result.valid:
+            S.viol(ctx, "heal-valid-property", "result.valid is false for outcome %s" % result.outcome.value, desc)
         if (result.outcome == HealingOutcome.VALID_FIRST_TRY) != (ncalls == 1):
             S.viol(ctx, "heal-outcome-label", "outcome %s after %d generator calls" % (result.outcome.value, ncalls), desc)
         if result.ubiquitin_tagged:
@@ -403,7 +485,7 @@ def _case_heal(ctx, max_retries, prog, decay, plain, prior_twin, silent):
         if result.outcome != HealingOutcome.DEGRADED:
             S.viol(ctx, "heal-unknown-outcome", "outcome %r" % (result.outcome,), desc)
         if not result.ubiquitin_tagged or result.final_confidence != 0 or result.structure is not None \
-                or (result.folded is not None and result.folded.valid):
+                or (result.folded is not None and result.folded.valid) or result.valid:
             S.viol(ctx, "heal-degraded-shape", "DEGRADED result tagged=%r confidence=%r structure=%r" % (
                 result.ubiquitin_tagged, result.final_confidence, result.structure), desc)
     if len(result.attempts) != ncalls:
@@ -431,6 +513,11 @@ def _case_swarm(ctx, max_regen, max_steps, prog, threshold, silent, step_timeout
     steps = {}          # worker index -> outputs
     summarizer_calls = []
     pool = []
+    flags = {"nonstr": False}
+    # "last": the failure is placed exactly at the last step / spawn / summary the budget allows
+    raise_step = (max_regen, max_steps - 1) if prog.get("raise_step") == "last" else prog.get("raise_step")
+    raise_factory = max_regen if prog.get("raise_factory") == "last" else prog.get("raise_factory")
+    raise_summarizer = max(max_regen - 1, 0) if prog.get("raise_summarizer") == "last" else prog.get("raise_summarizer")
 
     class W:
         def __init__(self, wid, idx):
@@ -443,7 +530,7 @@ def _case_swarm(ctx, max_regen, max_steps, prog, threshold, silent, step_timeout
             ctx.count("worker_steps")
             if k > max_steps + HARD_CAP:
                 raise Runaway("worker %d stepped %d times" % (self.idx, k + 1))
-            if prog.get("raise_step") == (self.idx, k):
+            if raise_step == (self.idx, k):
                 steps[self.idx].append(None)
                 raise inject(ctx, 1, "worker step failed")
             if prog.get("marker_at") == (self.idx, k):
@@ -465,6 +552,13 @@ def _case_swarm(ctx, max_regen, max_steps, prog, threshold, silent, step_timeout
                 elif kind.startswith("seam"):
                     ctx.count("seam_outputs")
                     o = S.seam_output(kind, self.idx, k)
+                elif kind == "hostile":
+                    o = "%s #%d-%d" % (S.HOSTILE[(self.idx + k) % 5], self.idx, k)
+                elif kind in S.OBJ_WORKERS:
+                    o = S.obj_worker_output(kind, self.idx, k, prog.get("obj_from", 0))
+                    if o is None or S.nonstr(o):
+                        ctx.count("nonstr_worker_outputs")
+                        flags["nonstr"] = True
                 else:
                     o = NEAR[k % len(NEAR)] + " %d" % k
             steps[self.idx].append(o)
@@ -486,7 +580,7 @@ def _case_swarm(ctx, max_regen, max_steps, prog, threshold, silent, step_timeout
         ctx.count("factory_calls")
         if idx > max_regen + HARD_CAP:
             raise Runaway("factory called %d times" % (idx + 1))
-        if prog.get("raise_factory") == idx:
+        if raise_factory == idx:
             raise inject(ctx, 2, "factory failed")
         steps[idx] = []
         if prog.get("shared_worker"):
@@ -500,7 +594,7 @@ def _case_swarm(ctx, max_regen, max_steps, prog, threshold, silent, step_timeout
     def summarizer(mem):
         i = len(summarizer_calls)
         summarizer_calls.append(i)
-        if prog.get("raise_summarizer") == i:
+        if raise_summarizer == i:
             raise inject(ctx, 3, "summarizer failed")
         if prog.get("hints") == "marker":
             return ["the previous worker was nearly DONE", "SUCCESS is close", "hint %d" % i]
@@ -520,18 +614,20 @@ def _case_swarm(ctx, max_regen, max_steps, prog, threshold, silent, step_timeout
     raised = False
     try:
         result = swarm.supervise(task_text)
-    except tuple(EXC_CLASSES) as e:
-        if not any(e is x for x in _INJECTED[-50:]):
-            S.viol(ctx, "swarm-raises", "supervise() raised %s on its own" % type(e).__name__, dict(desc, error=repr(e)))
-            return
-        raised = True
     except Runaway as e:
         mech = "swarm-step-budget" if "stepped" in str(e) else "swarm-spawn-budget"
         S.viol(ctx, mech, "swarm ran away: %s (max_regenerations=%d, max_steps_per_worker=%d)" % (e, max_regen, max_steps), desc)
         return
     except Exception as e:
-        S.viol(ctx, "swarm-raises", "supervise() raised %s" % type(e).__name__, dict(desc, error=repr(e)))
-        return
+        if any(e is x for x in _INJECTED[-50:]):
+            raised = True
+        elif flags["nonstr"]:
+            # the Worker protocol promises text: a swarm that raises by itself on another type is not judged beyond its budgets
+            ctx.count("own_raise_on_nonstr_output")
+            raised = True
+        else:
+            S.viol(ctx, "swarm-raises", "supervise() raised %s on its own" % type(e).__name__, dict(desc, error=repr(e)))
+            return
     desc["factory_calls"] = len(factory_calls)
     desc["steps_per_worker"] = {k: len(v) for k, v in steps.items()}
     if len(factory_calls) > max_regen + 1:
@@ -546,10 +642,12 @@ def _case_swarm(ctx, max_regen, max_steps, prog, threshold, silent, step_timeout
         ctx.count("swarm_stub_raised")
         ctx.nontrivial(("swarm-raise", max_regen, max_steps, repr(prog)))
         return
+    if flags["nonstr"]:
+        ctx.count("results_judged_after_nonstr_output")
     if result.success:
         ctx.count("swarm_success")
         out = result.output
-        produced = [o for outs in steps.values() for o in outs if o is not None]
+        produced = [o for outs in steps.values() for o in outs if isinstance(o, str)]
         carries = isinstance(out, str) and any(m in out.upper() for m in MARKERS)
         if not carries or out not in produced:
             S.viol(ctx, "swarm-success-without-marker", "success reported for output %r" % (out,), desc)
@@ -578,6 +676,7 @@ def _case_tool(ctx, max_iter, prog, silent):
 
     log = {"cwt": 0, "complete": 0, "tool_runs": 0, "requested": 0, "prompts": []}
     const = {}
+    probe_name = "a.*b(c)[d]{0}%s\nprobe\x00" if prog.get("hostile_names") else "probe"
 
     def resp(text):
         return LLMResponse(content=text, model="stub", tokens_used=1, latency_ms=0.0)
@@ -617,7 +716,7 @@ def _case_tool(ctx, max_iter, prog, silent):
             if r > max_iter + HARD_CAP:
                 raise Runaway("complete_with_tools called %d times" % r)
             log["prompts"].append(len(prompt))
-            if prog.get("provider_raises_round") == r:
+            if (max_iter if prog.get("provider_raises_round") == "last" else prog.get("provider_raises_round")) == r:
                 raise inject(ctx, 4, "provider failed in round %d" % r)
             cpr = prog["calls_per_round"]
             if r <= len(cpr):
@@ -630,16 +729,26 @@ def _case_tool(ctx, max_iter, prog, silent):
             if prog.get("const"):
                 # the very same response object, list object and (repeated) call object in every round
                 if ncalls not in const:
-                    const[ncalls] = (resp(text), [ToolCall(id="k", name="probe", arguments={"x": 1})] * ncalls)
+                    const[ncalls] = (resp(text), [ToolCall(id="k", name=probe_name, arguments={"x": 1})] * ncalls)
                 log["requested"] += ncalls
                 return const[ncalls]
             calls = []
             for j in range(ncalls):
-                name = "missing_tool" if prog.get("unknown_tool") and j == 0 else "probe"
-                cid = "same" if prog.get("same_ids") else "c%d_%d" % (r, j)
-                calls.append(ToolCall(id=cid, name=name, arguments={"x": j}))
-                if name == "probe":
+                name = "missing_tool" if prog.get("unknown_tool") and j == 0 else probe_name
+                cid = "same" if prog.get("same_ids") else S.HOSTILE[(r + j) % len(S.HOSTILE)] if prog.get("hostile_names") else "c%d_%d" % (r, j)
+                if prog.get("duck_calls"):
+                    calls.append(types.SimpleNamespace(id=cid, name=name, arguments=types.MappingProxyType({"x": j}), success=True, output="DONE"))
+                else:
+                    calls.append(ToolCall(id=cid, name=name, arguments={"x": j}))
+                if name == probe_name:
                     log["requested"] += 1
+            box = prog.get("container")
+            if box == "tuple":
+                calls = tuple(calls)
+            elif box == "iter":
+                calls = iter(calls)
+            elif box == "none-when-empty" and not calls:
+                calls = None
             return resp(text), calls
 
     class ProviderNoTools:
@@ -666,7 +775,7 @@ def _case_tool(ctx, max_iter, prog, silent):
         ctx.count("verbose_calls")
     mito = Mitochondria(silent=silent)
     if not prog.get("no_tools"):
-        mito.register_function("probe", probe, "probe tool")
+        mito.register_function(probe_name, probe, "probe tool {0} 100% %s" if prog.get("hostile_names") else "probe tool")
     provider = ProviderNoTools() if prog.get("no_cwt") else Provider()
     nucleus = Nucleus(provider=provider)
     auto = prog.get("auto_execute", True)
@@ -674,17 +783,14 @@ def _case_tool(ctx, max_iter, prog, silent):
     raised = False
     try:
         r = nucleus.transcribe_with_tools("question", mito, max_iterations=max_iter, auto_execute=auto)
-    except tuple(EXC_CLASSES) as e:
-        if not any(e is x for x in _INJECTED[-50:]):
-            S.viol(ctx, "tool-loop-raises", "transcribe_with_tools raised %s on its own" % type(e).__name__, dict(desc, error=repr(e)))
-            return
-        raised = True
     except Runaway as e:
         S.viol(ctx, "tool-round-budget", "tool loop ran away: %s with max_iterations=%d" % (e, max_iter), desc)
         return
     except Exception as e:
-        S.viol(ctx, "tool-loop-raises", "transcribe_with_tools raised %s" % type(e).__name__, dict(desc, error=repr(e)))
-        return
+        if not any(e is x for x in _INJECTED[-50:]):
+            S.viol(ctx, "tool-loop-raises", "transcribe_with_tools raised %s on its own" % type(e).__name__, dict(desc, error=repr(e)))
+            return
+        raised = True
     desc.update(cwt=log["cwt"], complete=log["complete"], tool_runs=log["tool_runs"])
     if log["cwt"] > max_iter:
         S.viol(ctx, "tool-round-budget", "complete_with_tools called %d times with max_iterations=%d" % (
